@@ -55,6 +55,8 @@ Lemma enc_field_not_panic lay u k v : enc_field lay u k v <> Panic.
 Proof.
   destruct k, v; cbn [enc_field]; try discriminate.
   - destruct (has_nul s); discriminate.
+  - destruct (esm_fits e); discriminate.
+  - destruct (regdel_fits r); discriminate.
   - destruct (has_nul (a_no a)); discriminate.
   - apply enc_dests_not_panic.
   - apply enc_unsucc_not_panic.
